@@ -150,7 +150,11 @@ struct Explorer {
                 {
                     World w(wdir); WSnap pre; st.executions++;
                     if (!replay(w, h, &pre) || pre.key != fkeys[pi]) { status = 1; st.harnessErrors++; fprintf(fv, "HARNESS\treplay_diverged/transition\t%u\t%d\tkey %s expected %s\n", pi, id, pre.key.hex().c_str(), fkeys[pi].hex().c_str()); break; }
+                    const ezc3d::Header* heldH = &w.c->header(); const ezc3d::ParametersNS::Parameters* heldP = &w.c->parameters(); const ezc3d::DataNS::Data* heldD = &w.c->data(); const C3D* heldC = w.c.get();
                     CallInfo ci; Outcome oc = guarded([&] { ops[id].apply(w, pre, ci); });
+                    if (orc.c13 && heldC == w.c.get()) {   // references obtained from the accessors before the call stay usable after it (the sanitizer judges)
+                        volatile size_t sink1 = heldH->nbFrames() + heldP->nbGroups() + heldD->nbFrames(); (void)sink1;
+                    }
                     WSnap post = snapWorld(w);
                     st.transitions++; st.outcomes[oc]++; if (oc != OK) st.refused++;
                     size_t b = sink.size(); transitionOracles(pre, ci, oc, post, w, ops[id], sink, st); emitSink(id, b);
